@@ -148,7 +148,7 @@ def gen_cases(ctx):
     # unsigned 16/32-bit files written by SimpleITK (promotions)
     for fmt in FORMATS:
         for dt in ("uint16", "uint32"):
-            for D in ((2, 3) if thorough else ((3,) if fmt == ".mha" else (rng.choice([2, 3]),))):   # 2-D .mha is unreadable anyway
+            for D in ((2, 3) if (thorough or fmt == ".mha") else (rng.choice([2, 3]),)):
                 c = mk_case(rng, "from_sitk", fmt, D, 1, "int32", True)
                 hi = 65535 if dt == "uint16" else 2 ** 32 - 1
                 c["dtype"] = dt
@@ -166,7 +166,7 @@ def gen_cases(ctx):
             for C in (1, 2):
                 cases.append(mk_case(rng, "roundtrip", fmt, D, C, rng.choice(DTYPES), True, entry="Image", search_only=True))
             if KIND_OF[fmt] != "sitk":   # the native writers' guard explicitly admits data.ndim == grid.ndim
-                cases.append(mk_case(rng, "roundtrip", fmt, D, 1, rng.choice(DTYPES), False, no_channel_dim=True, search_only=True))
+                cases.append(mk_case(rng, "roundtrip", fmt, D, 1, rng.choice(DTYPES), rng.random() < 0.5, no_channel_dim=True))
     # flow fields
     for fmt in FORMATS:
         for D in (2, 3):
@@ -663,8 +663,8 @@ MANIFEST_ENTRY = {
             "symbolic / position-coded values: the channel-axis move is a transposition and write/read moves are inverse for every "
             "channel count and size (induction); SimpleITK-backed formats round-trip exactly for D in {2,3}, any C, any grid, every "
             "torch element type (full); a library-written .mha read under ITK's convention is Image.sitk() (full); native .mha "
-            "round trip conditional on the reader accepting the configuration, proved for 3-D scalar, refuted for 2-D and "
-            "multi-channel (reader defects); NIfTI writer refuted (no file is produced), reader exact on ITK-written scalar files, "
+            "round trip and reading of ITK-written .mha exact for D in {2,3}, any C, compressed or not (full; data without channel "
+            "dimension is traced to give the C = 1 file); NIfTI writer refuted (no file is produced), reader exact on ITK-written scalar files, "
             "refuted on ITK vector layout; element-type tables and promotions value-preserving (finite, complete); flow vectors go to "
             "world axes on write and return to the original axes for orthonormal directions (field algebra). Tie: correspondence that "
             "really writes and reads files over format x D x channels x dtype x compress (complete in thorough) in both directions of "
@@ -672,6 +672,6 @@ MANIFEST_ENTRY = {
     "note": "Partial: byte formats, zlib, header text, nibabel and ITK are runtime (trusted, tied only by the correspondence on real files); "
             "the ITK MetaImage/NIfTI conventions are hand-written specifications validated the same way; Grid's float32 origin<->center "
             "conversion is compared to 1e-5, voxel data exactly. Genuine defects of the tree are reported as known findings "
-            "(2-D and multi-channel .mha cannot be read back, NIfTI cannot be written, ITK vector NIfTI cannot be read, "
-            ".mha writer mislabels data without channel dimension).",
+            "(NIfTI cannot be written; ITK vector NIfTI cannot be read); the three MetaImage defects found by this check "
+            "(2-D, multi-channel, channel-less data) are repaired in /repo.",
 }
